@@ -115,14 +115,11 @@ def rules(ctx, tier):
                    "intents filter; direct unlinks are guarded by 'not referenced and no intent' for the same hash",
              "a blob that a key references, or that an in-flight commit is about to reference, is deleted")
     n_cb = 0
-    for b in prog.bodies.values():
-        for site in b.calls():
-            if site.path not in FN_TRAIT_CALLS or site.callee.get("rk") != "virtual":
-                continue
-            if "BLOB_UNLINK" not in site_sem(ctx, site):
-                continue
+    sections = delete_sections(ctx)
+    for (V, owner, dels, applies) in sections:
+        for site in dels:
             n_cb += 1
-            check_callback_list(ctx, r, b, site, fcont)
+            check_callback_list(ctx, r, V, site, fcont, owner)
     for site in direct_unlinks:
         check_direct_unlink(ctx, r, site, fcont)
     r.check(n_cb >= 1, "callback-sites", None, "%d delete-callback call site(s)" % n_cb,
@@ -162,29 +159,25 @@ def rules(ctx, tier):
     r = Rule("R4", "one continuous hold of the protocol lock from apply to delete",
              "between apply and delete the lock is dropped: a commit registers, publishes and applies the same "
              "content in the gap, then the stale delete list removes its blob")
-    for b in prog.bodies.values():
-        applies = [s for s in b.calls() if "APPLIED" in sem_set(ctx._must_summary(s))] if hasattr(ctx, "_must_summary") else []
-        applies = [s for s in b.calls() if _reaches_apply(ctx, s)]
-        dels = [s for s in b.calls() if s.path in FN_TRAIT_CALLS and s.callee.get("rk") == "virtual"
-                and "BLOB_UNLINK" in site_sem(ctx, s)]
-        if not applies or not dels:
-            continue
-        bl = L.bl[b.path]
+    from .. import locks as locksmod
+    for (V, owner, dels, applies) in sections:
+        b = V
+        bl = locksmod.BodyLocks(ctx.world, V)
         acq = [(bb, cs) for (bb, cs, blocking, path) in bl.acquired_here if path in effects.LOCK_ACQ
                and any(c in P for c, _ in cs)]
         for a in applies:
             for d in dels:
                 doms = [bb for bb, cs in acq if b.dominates(bb, a.bb) and b.dominates(bb, d.bb)]
-                r.check(len(doms) == 1, "single-acquire", b,
-                        "%s: the protocol lock is acquired once (bb%s) before apply and delete" % (b.path, doms),
+                r.check(len(doms) == 1, "single-acquire", owner,
+                        "%s: the protocol lock is acquired once before apply and delete" % owner.path,
                         "%s: %d acquisitions of the protocol lock dominate apply (%s) and delete (%s)" % (
-                            b.path, len(doms), site_where(a), site_where(d)))
-                ha = L.must_held_at(a)
-                hd = L.must_held_at(d)
-                r.check(ha is not None and P <= set(c for c, _ in ha), "held-at-apply", b,
+                            owner.path, len(doms), site_where(a), site_where(d)))
+                ha = L.must_held_at(V.orig_site(a))
+                hd = L.must_held_at(V.orig_site(d))
+                r.check(ha is not None and P <= set(c for c, _ in ha), "held-at-apply", owner,
                         "protocol lock held at the apply call %s" % site_where(a),
                         "protocol lock not held at the apply call %s" % site_where(a), site_where(a))
-                r.check(hd is not None and P <= set(c for c, _ in hd), "held-at-delete", b,
+                r.check(hd is not None and P <= set(c for c, _ in hd), "held-at-delete", owner,
                         "protocol lock held at the delete call %s" % site_where(d),
                         "protocol lock not held at the delete call %s" % site_where(d), site_where(d))
                 # no release of a protocol-lock guard and no second acquisition between the two
@@ -203,12 +196,10 @@ def rules(ctx, tier):
                             rel.append(x)
                     if any(x == bb for bb, cs in acq):
                         rel.append(x)
-                r.check(not rel, "no-release-between", b,
-                        "no release or re-acquisition of the protocol lock between apply and delete in %s" % b.path,
+                r.check(not rel, "no-release-between", owner,
+                        "no release or re-acquisition of the protocol lock between apply and delete in %s" % owner.path,
                         "the protocol lock is released or re-acquired between apply (%s) and delete (%s) in %s" % (
-                            site_where(a), site_where(d), b.path))
-                # own intent removed and filter evaluated inside the same region, under the lock
-        # intent removal / filter sites in this body are covered by R1 (held) and R2 (dominance)
+                            site_where(a), site_where(d), owner.path))
     r.need(4, "at least one apply+delete body x4 (today: 2 bodies)")
     out.append(r.finish())
 
@@ -272,25 +263,77 @@ def _reaches_apply(ctx, site):
     return False
 
 
-def check_callback_list(ctx, r, b, site, fcont):
+def delete_sections(ctx):
+    """(flat view, owner body, delete-callback sites in the view, apply sites in the view) for every function that
+    applies an operation and hands the dereferenced blobs to the delete callback.  Helpers between the two steps
+    (a private 'purge' function, say) are part of the view."""
+    prog = ctx.prog
+    out = []
+    for b in prog.bodies.values():
+        if b.is_closure:
+            continue
+        own_apply = [s for s in b.calls() if _reaches_apply(ctx, s)]
+        if not own_apply:
+            continue
+        V = ctx.flat(b, stop=tuple(ctx.apply_roots()))
+        dels = [s for s in V.sites(("call",)) if s.path in FN_TRAIT_CALLS and (s.callee or {}).get("rk") == "virtual"
+                and "BLOB_UNLINK" in site_sem(ctx, V.orig_site(s))]
+        if not dels:
+            continue
+        applies = [s for s in V.sites(("call",)) if _reaches_apply(ctx, s)]
+        out.append((V, b, dels, applies))
+    return out
+
+
+def _filter_chain(ctx, b, sl, op):
+    """Walks the iterator pipeline that produced a list: returns (closures of the `filter` steps, operand the
+    pipeline started from)."""
+    filters = []
+    cur = op
+    for _ in range(8):
+        lv = sl.leaves_of_operand(cur)
+        if len(lv) != 1:
+            break
+        l = list(lv)[0]
+        if l[0] != "call":
+            break
+        last = (l[1] or "").split("::")[-1]
+        if last not in ("collect", "from_iter", "filter", "into_iter", "iter", "copied", "cloned", "by_ref", "rev",
+                        "drain"):
+            break
+        t = b.blocks[l[2]]["term"]
+        if last == "filter":
+            site2 = Site(b, l[2], t)
+            filters += [tg for tg, how in ctx.prog.call_targets(site2) if how == "extern-cb"]
+        if not t["args"]:
+            break
+        cur = t["args"][0]
+    return filters, cur
+
+
+def check_callback_list(ctx, r, b, site, fcont, kb=None):
     """site: `delete_fn(&list)`. The list local went through `retain(|h| !intents...)` and comes from the
     apply call; nothing else adds to it."""
     prog = ctx.prog
+    kb = kb or b
     args = site.term["args"]
     ops = ctx.world.vfg._tuple_ops(b, place_of(args[1])["l"]) if len(args) > 1 and place_of(args[1]) else None
     if not ops:
-        r.bad("callback-arg", b, "cannot see the argument tuple of the callback at %s" % site_where(site))
+        r.bad("callback-arg", kb, "cannot see the argument tuple of the callback at %s" % site_where(site))
         return
     V = ctx.world.borrowed_local(b, ops[0])
     if V is None:
-        r.bad("callback-list", b, "the callback argument at %s is not a local list" % site_where(site))
+        r.bad("callback-list", kb, "the callback argument at %s is not a local list" % site_where(site))
         return
-    # provenance of V
-    sl = Slicer(ctx.world, b)
-    lv = sl.leaves_of_place({"l": V, "p": []})
+    # provenance of V: either the apply result itself, or a filter pipeline over it
+    sl = Slicer(ctx.world, b, skip_err=True)
+    pipe_filters, start = _filter_chain(ctx, b, sl, {"copy": {"l": V, "p": []}})
+    # (values of the error paths of inlined helpers never reach the list)
+    lv = set(l for l in sl.leaves_of_operand(start)
+             if not (l[0] == "call" and (l[1] or "").endswith("FromResidual::from_residual")))
     calls = [l for l in lv if l[0] == "call"]
     ok_src = len(lv) >= 1 and all(l[0] == "call" and _reaches_apply(ctx, Site(b, l[2], b.blocks[l[2]]["term"])) for l in lv)
-    r.check(ok_src, "list-source", b,
+    r.check(ok_src, "list-source", kb,
             "the list deleted at %s is the result of the apply call (%s)" % (site_where(site),
                                                                             ", ".join(fmt_leaf(l) for l in lv)),
             "the list deleted at %s has origins %s (expected: only the result of the apply call)" % (
@@ -343,12 +386,13 @@ def check_callback_list(ctx, r, b, site, fcont):
                 reads = True
         if reads and b.dominates(s2.bb, site.bb):
             good.append(s2)
-    r.check(len(good) >= 1, "filtered", b,
-            "the list deleted at %s is filtered against the live intents at %s" % (
-                site_where(site), ", ".join(site_where(s) for s in good)),
-            "the list deleted at %s does not pass through a retain() whose predicate reads the intents on every path"
+    piped = [c for c in pipe_filters if intents_reads_under(ctx, c) & set(fcont)]
+    r.check(len(good) >= 1 or bool(piped), "filtered", kb,
+            "the list deleted at %s is filtered against the live intents (%s)" % (
+                site_where(site), ", ".join(site_where(s) for s in good) or "filter step of the pipeline that builds it"),
+            "the list deleted at %s does not pass through a retain()/filter() whose predicate reads the intents on every path"
             % site_where(site), site_where(site))
-    r.check(not others, "nothing-added", b, "nothing is added to the list after the apply call",
+    r.check(not others, "nothing-added", kb, "nothing is added to the list after the apply call",
             "the delete list is modified by %s" % ", ".join("%s at %s" % (s.path, site_where(s)) for s in others))
 
 
